@@ -181,6 +181,27 @@ Definition round_float (f : fty) (neg : bool) (M E : Z) : fval :=
   let '(m, e) := if m =? 2 ^ p then (2 ^ (p - 1), e + 1) else (m, e) in
   if emax f <? e then FInf neg else FFin neg m e.
 
+(* back to a bit pattern (NaN: the canonical quiet NaN; payloads are not modelled) *)
+Definition encode (f : fty) (v : fval) : Z :=
+  let sgn (neg : bool) := if neg then 2 ^ (f_mbits f + f_ebits f) else 0 in
+  match v with
+  | FNaN => (2 ^ f_ebits f - 1) * 2 ^ f_mbits f + 2 ^ (f_mbits f - 1)
+  | FInf neg => sgn neg + (2 ^ f_ebits f - 1) * 2 ^ f_mbits f
+  | FFin neg m e =>
+      if m <? 2 ^ f_mbits f then sgn neg + m
+      else sgn neg + (e - emin f + 1) * 2 ^ f_mbits f + (m - 2 ^ f_mbits f)
+  end.
+
+(* `v as f32/f64` for an integer (PrimToPrim int -> float: always Some) *)
+Definition int_to_float (f : fty) (v : Z) : Z := encode f (round_float f (v <? 0) (Z.abs v) 0).
+(* `x as f32/f64` between float types (always Some; overflow saturates to infinity) *)
+Definition float_to_float (s d : fty) (bits : Z) : Z :=
+  match decode s bits with
+  | FNaN => encode d FNaN
+  | FInf neg => encode d (FInf neg)
+  | FFin neg m e => encode d (round_float d neg m e)
+  end.
+
 (* f.round(): half away from zero, result as an integer (finite case) *)
 Definition round_half_away_me (m e : Z) : Z :=
   if 0 <=? e then m * 2 ^ e
